@@ -408,3 +408,260 @@ Proof.
   - apply f_to_uint_spec; [apply std_widths_ok|]; assumption.
   - apply d_to_uint_spec; assumption.
 Qed.
+
+(* ------------------------------------------------------------------ from native integers *)
+
+Lemma digit_high x w i t : x < 2 ^ t -> t <= w * i -> (x / 2 ^ (w * i)) mod 2 ^ w = 0.
+Proof.
+  intros Hx Ht. rewrite N.div_small; [apply N.mod_0_l, pow2_ne0|].
+  apply N.lt_le_trans with (2 ^ t); [assumption|apply pow2_le; assumption].
+Qed.
+
+Lemma f_from_uint_spec w n t x :
+  0 < w -> 0 < n -> x < 2 ^ t ->
+  (w * n < N.size x -> f_from_uint w n t x = Err ECap) /\
+  (N.size x <= w * n ->
+   exists r, f_from_uint w n t x = Ok r /\ canon_wv w r /\ lenw (wd r) = n /\
+             wl r = N.min t (w * n) /\ raw w (wd r) = x).
+Proof.
+  intros Hw Hn Hx. pose proof (size_le_of_lt x t Hx) as Hsz.
+  assert (w <= w * n) as Hwn by nia.
+  unfold f_from_uint. destruct (N.leb_spec t w) as [Htw|Htw].
+  - split; [lia|]. intros _.
+    rewrite seto_ok by (rewrite lenw_zerosw; assumption). cbn [bind].
+    eexists. split; [reflexivity|]. cbn [wd wl].
+    set (d := setw (zerosw n) 0 x).
+    assert (lenw d = n) as Hd by (unfold d; rewrite lenw_setw, lenw_zerosw; reflexivity).
+    destruct (raw_of_digits w d x Hw) as [Hok HR].
+    + rewrite Hd. apply N.lt_le_trans with (2 ^ t); [assumption|apply pow2_le; lia].
+    + intros i Hi. unfold d. rewrite getw_setw, lenw_zerosw.
+      assert (0 <? n = true) as -> by (apply N.ltb_lt; assumption). rewrite andb_true_r.
+      destruct (N.eqb_spec 0 i) as [<-|Hne].
+      * rewrite N.mul_0_r. change (2 ^ 0) with 1. rewrite N.div_1_r. symmetry. apply N.mod_small.
+        apply N.lt_le_trans with (2 ^ t); [assumption|apply pow2_le; assumption].
+      * rewrite getw_zerosw. symmetry. apply (digit_high x w i t); [assumption|].
+        assert (w * 1 <= w * i) by (apply N.mul_le_mono_l; lia). lia.
+    + rewrite N.min_l by lia. split; [|auto]. unfold canon_wv. cbn [wd wl]. rewrite HR, Hd.
+      split; [assumption|]. split; [lia|assumption].
+  - split.
+    + intros H. apply N.ltb_lt in H. rewrite H. reflexivity.
+    + intros H. assert (w * n <? N.size x = false) as -> by (apply N.ltb_ge; assumption).
+      eexists. split; [reflexivity|]. cbn [wd wl].
+      set (d := mapi _ _).
+      assert (lenw d = n) as Hd by (unfold d; rewrite lenw_mapi, lenw_zerosw; reflexivity).
+      pose proof (lt_pow2_size x (w * n) H) as Hxc.
+      destruct (raw_of_digits w d x Hw) as [Hok HR].
+      * rewrite Hd. assumption.
+      * intros i Hi. unfold d. rewrite getw_mapi by (rewrite lenw_zerosw; lia).
+        destruct (N.ltb_spec (i * w) t) as [Hit|Hit].
+        -- rewrite wrap_mod. unfold shrw. rewrite N.shiftr_div_pow2. rewrite (N.mul_comm i w). reflexivity.
+        -- symmetry. apply (digit_high x w i t); [assumption|lia].
+      * split; [|auto]. unfold canon_wv. cbn [wd wl]. rewrite HR, Hd.
+        split; [assumption|]. split; [lia|].
+        destruct (N.min_spec t (w * n)) as [[_ ->]|[_ ->]]; assumption.
+Qed.
+
+Lemma slice_int_len_one t x : std_width t -> slice_int_len t 64 [x] = (t + 63) / 64.
+Proof. unfold std_width. cbn [In]. intros [<-|[<-|[<-|[<-|[<-|[]]]]]]; reflexivity. Qed.
+
+Lemma d_from_uint_spec t x :
+  std_width t -> x < 2 ^ t ->
+  exists r, d_from_uint t x = Ok r /\ canon_wv 64 r /\ wl r = t /\ raw 64 (wd r) = x.
+Proof.
+  intros Ht Hx. unfold d_from_uint, W64. rewrite slice_int_len_one by assumption.
+  pose proof (std_widths_ok t 64 Ht std_width_64) as Hww.
+  assert (words_ok t [x]) as Hox by (constructor; [assumption|constructor]).
+  assert (raw t [x] = x) as Hrx by (rewrite raw_cons, raw_nil; lia).
+  assert (forall i, slice_get_int t 64 [x] i =
+                    if i <? (t + 63) / 64 then Some ((x / 2 ^ (64 * i)) mod 2 ^ 64) else None) as Hg.
+  { intros i. rewrite (slice_get_int_spec t 64 Hww [x] i Hox), Hrx.
+    change (lenw [x]) with 1.
+    destruct (N.ltb_spec (i * 64) (t * 1)); destruct (N.ltb_spec i ((t + 63) / 64)); try reflexivity; lia. }
+  rewrite (omap_list_unwrap (fun i => slice_get_int t 64 [x] i)).
+  - cbn [bind]. eexists. split; [reflexivity|]. cbn [wd wl].
+    set (d := map _ _).
+    assert (lenw d = (t + 63) / 64) as Hd by (unfold d; apply lenw_map_nrange).
+    destruct (raw_of_digits 64 d x eq_refl) as [Hok HR].
+    + rewrite Hd. apply N.lt_le_trans with (2 ^ t); [assumption|apply pow2_le; lia].
+    + intros i Hi. unfold d. rewrite getw_map_nrange by lia. rewrite Hg.
+      assert (i <? (t + 63) / 64 = true) as -> by (apply N.ltb_lt; lia). reflexivity.
+    + split; [|auto]. unfold canon_wv. cbn [wd wl]. rewrite HR, Hd.
+      split; [assumption|]. split; [lia|assumption].
+  - intros i Hi. apply In_nrange in Hi. rewrite Hg.
+    assert (i <? (t + 63) / 64 = true) as -> by (apply N.ltb_lt; lia). eauto.
+Qed.
+
+(* the inline variant of Bv / the Bvp operand holds every native integer *)
+Lemma bvp_from_uint t x :
+  std_width t -> x < 2 ^ t ->
+  exists r, f_from_uint 64 2 t x = Ok r /\ canon_wv 64 r /\ lenw (wd r) = 2 /\ wl r = t /\ raw 64 (wd r) = x.
+Proof.
+  intros Ht Hx. pose proof (std_width_le128 t Ht) as Ht128. pose proof (size_le_of_lt x t Hx) as Hsz.
+  destruct (f_from_uint_spec 64 2 t x eq_refl eq_refl Hx) as [_ HO].
+  destruct HO as (r & E & Hc & Hn & Hl & Hr); [lia|].
+  exists r. rewrite N.min_l in Hl by lia. auto.
+Qed.
+
+Theorem k_from_uint_spec k t x :
+  kind_ok k -> std_width t -> x < 2 ^ t ->
+  (kind_fixed k = true -> kind_cap k < N.size x -> k_from_uint k t x = Err ECap) /\
+  (kind_fixed k = false \/ N.size x <= kind_cap k ->
+   exists r, k_from_uint k t x = Ok r /\ Good r /\ kind_matches k r = true /\
+             abs r = mkbv (if kind_fixed k then N.min t (kind_cap k) else t) x).
+Proof.
+  intros Hk Ht Hx.
+  destruct k as [w n| |]; cbn [kind_ok kind_fixed kind_cap k_from_uint] in *.
+  - destruct Hk as [Hw Hn].
+    destruct (f_from_uint_spec w n t x (std_width_pos w Hw) Hn Hx) as [HE HO].
+    split.
+    + intros _ H. rewrite HE by assumption. reflexivity.
+    + intros [H|H]; [discriminate|].
+      destruct (HO H) as (r & -> & Hc & Hnr & Hl & Hr). cbn [bind].
+      pose proof (Good_XF w r Hw Hc) as Hg.
+      exists (XF w r). split; [reflexivity|]. split; [assumption|].
+      split; [cbn [kind_matches]; rewrite Hnr, !N.eqb_refl; reflexivity|].
+      rewrite abs_Canon by apply Hg. unfold xlen, val, xdata. cbn [xv xw]. rewrite Hl, Hr. reflexivity.
+  - split; [discriminate|]. intros _.
+    destruct (d_from_uint_spec t x Ht Hx) as (r & -> & Hc & Hl & Hr). cbn [bind].
+    pose proof (Good_XD r Hc) as Hg.
+    exists (XD r). split; [reflexivity|]. split; [assumption|]. split; [reflexivity|].
+    rewrite abs_Canon by apply Hg. unfold xlen, val, xdata. cbn [xv xw]. rewrite Hl, Hr. reflexivity.
+  - split; [discriminate|]. intros _.
+    unfold BVP_CAP, BVP_W, BVP_N.
+    assert (t <=? 128 = true) as -> by (apply N.leb_le, std_width_le128; assumption).
+    destruct (bvp_from_uint t x Ht Hx) as (r & -> & Hc & Hn & Hl & Hr).
+    pose proof (Good_XA_fixed r Hc Hn) as Hg.
+    exists (XA true r). split; [reflexivity|]. split; [assumption|]. split; [reflexivity|].
+    rewrite abs_Canon by apply Hg. unfold xlen, val, xdata. cbn [xv xw]. rewrite Hl, Hr. reflexivity.
+Qed.
+
+Theorem lift_uint_spec lhs t x :
+  std_width t -> x < 2 ^ t ->
+  exists r, lift_uint lhs t x = Ok r /\ Good r /\ abs r = mkbv t x.
+Proof.
+  intros Ht Hx. unfold lift_uint, BVP_W, BVP_N. destruct (is_fixed lhs).
+  - destruct (bvp_from_uint t x Ht Hx) as (r & -> & Hc & Hn & Hl & Hr).
+    pose proof (Good_XF 64 r std_width_64 Hc) as Hg.
+    exists (XF 64 r). split; [reflexivity|]. split; [assumption|].
+    rewrite abs_Canon by apply Hg. unfold xlen, val, xdata. cbn [xv xw]. rewrite Hl, Hr. reflexivity.
+  - destruct (d_from_uint_spec t x Ht Hx) as (r & -> & Hc & Hl & Hr). cbn [bind].
+    pose proof (Good_XD r Hc) as Hg.
+    exists (XD r). split; [reflexivity|]. split; [assumption|].
+    rewrite abs_Canon by apply Hg. unfold xlen, val, xdata. cbn [xv xw]. rewrite Hl, Hr. reflexivity.
+Qed.
+
+(* ------------------------------------------------------------------ from slices of integers *)
+
+Lemma combine_snoc {A B} (l1 : list A) (l2 : list B) a b :
+  length l1 = length l2 -> combine (l1 ++ [a]) (l2 ++ [b]) = combine l1 l2 ++ [(a, b)].
+Proof.
+  revert l2. induction l1 as [|x r IH]; intros [|y r2] H; cbn [length] in H; try discriminate; [reflexivity|].
+  cbn [app combine]. rewrite IH by lia. reflexivity.
+Qed.
+
+Lemma lenw_snoc (s : list N) x : lenw (s ++ [x]) = lenw s + 1.
+Proof. unfold lenw. rewrite app_length. cbn [length]. lia. Qed.
+
+Lemma enum_snoc s x : enum (s ++ [x]) = enum s ++ [(lenw s, x)].
+Proof.
+  unfold enum. rewrite lenw_snoc, nrange_succ. apply combine_snoc.
+  rewrite nrange_length. unfold lenw. lia.
+Qed.
+
+(* `for (i, x) in slice.iter().enumerate() { v.set_int::<J>(i, x) }` *)
+Lemma set_ints_spec w j v0 :
+  widths_ok w j -> canon_wv w v0 -> forall s, Forall (fun x => x < 2 ^ j) s ->
+  let v := fold_left (fun v p => v_set_int w j v (fst p) (snd p)) (enum s) v0 in
+  canon_wv w v /\ wl v = wl v0 /\ lenw (wd v) = lenw (wd v0) /\
+  forall b, N.testbit (raw w (wd v)) b =
+            if (b <? j * lenw s) && (b <? wl v0) then N.testbit (raw j s) b
+            else N.testbit (raw w (wd v0)) b.
+Proof.
+  intros Hww Hc0. pose proof Hww as (_ & Hj & _).
+  induction s as [|x s IH] using rev_ind; intros Hs v.
+  - subst v. cbn [enum fold_left]. split; [assumption|]. split; [reflexivity|]. split; [reflexivity|].
+    intros b. rewrite lenw_nil. destruct (N.ltb_spec b (j * 0)); [lia|reflexivity].
+  - apply Forall_app in Hs. destruct Hs as [Hs Hx]. inversion Hx as [|? ? Hxj _]; subst.
+    specialize (IH Hs). cbv zeta in IH. subst v. rewrite enum_snoc, fold_left_app. cbn [fold_left fst snd].
+    set (v1 := fold_left _ (enum s) v0) in *. destruct IH as (Hc1 & Hl1 & Hn1 & Hb1).
+    destruct (v_set_int_spec w j v1 (lenw s) x Hww Hc1 Hxj) as (Hc2 & Hl2 & Hn2 & Hb2).
+    split; [assumption|]. split; [congruence|]. split; [congruence|].
+    intros b. rewrite Hb2, Hb1, Hl1, lenw_snoc.
+    assert (words_ok j s) as Hos by exact Hs.
+    pose proof (raw_lt j s Hos) as Hrs.
+    rewrite (raw_app j Hj s [x]), raw_cons, raw_nil, N.mul_0_r, N.add_0_r.
+    rewrite concat_testbit by assumption.
+    replace (j * (lenw s + 1)) with (j * lenw s + j) by lia.
+    destruct (N.leb_spec (j * lenw s) b); destruct (N.ltb_spec b (j * lenw s + j));
+      destruct (N.ltb_spec b (wl v0)); destruct (N.ltb_spec b (j * lenw s)); cbn [andb]; try reflexivity; lia.
+Qed.
+
+Lemma set_ints_zero w j v0 s :
+  widths_ok w j -> canon_wv w v0 -> raw w (wd v0) = 0 -> wl v0 = lenw s * j ->
+  Forall (fun x => x < 2 ^ j) s ->
+  let v := fold_left (fun v p => v_set_int w j v (fst p) (snd p)) (enum s) v0 in
+  canon_wv w v /\ wl v = lenw s * j /\ lenw (wd v) = lenw (wd v0) /\ raw w (wd v) = raw j s.
+Proof.
+  intros Hww Hc0 Hr0 Hl0 Hs v.
+  destruct (set_ints_spec w j v0 Hww Hc0 s Hs) as (Hc & Hl & Hn & Hb). fold v in Hc, Hl, Hn, Hb.
+  split; [assumption|]. split; [congruence|]. split; [assumption|].
+  apply N.bits_inj. intro b. rewrite Hb, Hr0, Hl0, N.bits_0.
+  replace (lenw s * j) with (j * lenw s) by lia.
+  destruct (N.ltb_spec b (j * lenw s)) as [H|H]; cbn [andb]; [reflexivity|].
+  symmetry. apply (testbit_high _ (j * lenw s)); [apply raw_lt; exact Hs|assumption].
+Qed.
+
+Lemma fold_x_with (f : wv -> N * N -> wv) l z :
+  fold_left (fun x p => x_with x (f (xv x) p)) l z = x_with z (fold_left f l (xv z)).
+Proof.
+  revert z. induction l as [|p r IH]; intros z; cbn [fold_left].
+  - destruct z; reflexivity.
+  - rewrite IH. destruct z; reflexivity.
+Qed.
+
+Theorem k_from_slice_spec k j s :
+  kind_ok k -> std_width j -> Forall (fun x => x < 2 ^ j) s ->
+  (fits k (lenw s * j) = false -> k_from_slice k j s = Err ECap) /\
+  (fits k (lenw s * j) = true ->
+   exists r, k_from_slice k j s = Ok r /\ Good r /\ kind_matches k r = true /\
+             abs r = mkbv (lenw s * j) (raw j s)).
+Proof.
+  intros Hk Hj Hs.
+  destruct k as [w n| |]; cbn [kind_ok fits kind_fixed kind_cap negb orb k_from_slice] in *.
+  - destruct Hk as [Hw Hn]. unfold f_from_slice. split; intros H.
+    + rewrite H. reflexivity.
+    + rewrite H. apply N.leb_le in H.
+      destruct (f_zeros_spec w n (lenw s * j) H) as (z & -> & Hcz & Hlz & Hnz & Hrz). cbn [bind].
+      destruct (set_ints_zero w j z s (std_widths_ok w j Hw Hj) Hcz Hrz Hlz Hs) as (Hc & Hl & Hnr & Hr).
+      set (v := fold_left _ (enum s) z) in *.
+      pose proof (Good_XF w v Hw Hc) as Hg.
+      exists (XF w v). split; [reflexivity|]. split; [assumption|].
+      split; [cbn [kind_matches]; rewrite Hnr, Hnz, !N.eqb_refl; reflexivity|].
+      rewrite abs_Canon by apply Hg. unfold xlen, val, xdata. cbn [xv xw]. rewrite Hl, Hr. reflexivity.
+  - split; intros H; [discriminate|]. unfold d_from_slice, W64.
+    destruct (d_zeros_spec (lenw s * j)) as (Hcz & Hlz & Hrz & _).
+    destruct (set_ints_zero 64 j (d_zeros (lenw s * j)) s (std_widths_ok 64 j std_width_64 Hj) Hcz Hrz Hlz Hs)
+      as (Hc & Hl & Hnr & Hr).
+    set (v := fold_left _ (enum s) _) in *.
+    pose proof (Good_XD v Hc) as Hg.
+    exists (XD v). split; [reflexivity|]. split; [assumption|]. split; [reflexivity|].
+    rewrite abs_Canon by apply Hg. unfold xlen, val, xdata. cbn [xv xw]. rewrite Hl, Hr. reflexivity.
+  - split; intros H; [discriminate|]. unfold k_zeros, BVP_CAP, BVP_W, BVP_N, W64.
+    pose proof (std_widths_ok 64 j std_width_64 Hj) as Hww.
+    destruct (N.leb_spec (lenw s * j) 128) as [Hcap|Hcap].
+    + destruct (f_zeros_spec 64 2 (lenw s * j) ltac:(lia)) as (z & -> & Hcz & Hlz & Hnz & Hrz). cbn [bind].
+      rewrite (fold_x_with (fun v p => v_set_int 64 j v (fst p) (snd p))). cbn [xv x_with].
+      destruct (set_ints_zero 64 j z s Hww Hcz Hrz Hlz Hs) as (Hc & Hl & Hnr & Hr).
+      set (v := fold_left _ (enum s) z) in *.
+      pose proof (Good_XA_fixed v Hc ltac:(congruence)) as Hg.
+      exists (XA true v). split; [reflexivity|]. split; [assumption|]. split; [reflexivity|].
+      rewrite abs_Canon by apply Hg. unfold xlen, val, xdata. cbn [xv xw]. rewrite Hl, Hr. reflexivity.
+    + cbn [bind].
+      rewrite (fold_x_with (fun v p => v_set_int 64 j v (fst p) (snd p))). cbn [xv x_with].
+      destruct (d_zeros_spec (lenw s * j)) as (Hcz & Hlz & Hrz & _).
+      destruct (set_ints_zero 64 j (d_zeros (lenw s * j)) s Hww Hcz Hrz Hlz Hs) as (Hc & Hl & Hnr & Hr).
+      set (v := fold_left _ (enum s) _) in *.
+      pose proof (Good_XA_dyn v Hc) as Hg.
+      exists (XA false v). split; [reflexivity|]. split; [assumption|]. split; [reflexivity|].
+      rewrite abs_Canon by apply Hg. unfold xlen, val, xdata. cbn [xv xw]. rewrite Hl, Hr. reflexivity.
+Qed.
